@@ -93,6 +93,13 @@ fn scenario(cfg: &Cfg) {
         }
     }
     alloc.next_id_test_only().store(start_id, Ordering::SeqCst);
+    if cfg.refs {
+        // the creation EPMD hands out may equal the one already in force: identifiers made before
+        // and after must still differ
+        let p = alloc.allocate().expect("allocate");
+        history.push((p.id, p.serial, p.creation));
+        alloc.set_creation(creation);
+    }
     let node = if cfg.refs { Some(Arc::new(Node::new("n@h", "cookie"))) } else { None };
     // order in which allocations completed: the interleaving signature
     let order = Arc::new(shuttle::sync::Mutex::new(Vec::<u8>::new()));
@@ -110,6 +117,14 @@ fn scenario(cfg: &Cfg) {
                 pids.push((p.id, p.serial, p.creation));
                 order.lock().unwrap().push(t as u8);
                 if let Some(n) = &node {
+                    if t % 2 == 1 {
+                        // a monitor of a process on a node that is not connected fails; whatever it
+                        // does with the reference it made must not disturb references made elsewhere
+                        let from = erltf::types::ExternalPid::new(Atom::new("n@h"), 1, 0, 1);
+                        let to = erltf::types::ExternalPid::new(Atom::new("elsewhere@h"), 1, 0, 1);
+                        let res = shuttle::future::block_on(n.monitor(&from, &to));
+                        assert!(res.is_err(), "monitor of a process on an unconnected node succeeded");
+                    }
                     let r = n.make_reference();
                     refs.push((r.ids.clone(), r.creation));
                 }
@@ -125,12 +140,12 @@ fn scenario(cfg: &Cfg) {
         all_refs.extend(r);
     }
     let mut seen = HashSet::new();
-    for (id, serial, _) in &history {
-        seen.insert((*id, *serial));
+    for (id, serial, cr) in &history {
+        seen.insert((*id, *serial, *cr));
     }
     for (id, serial, cr) in &all_pids {
         assert_eq!(*cr, creation, "identifier carries creation {} instead of {}", cr, creation);
-        assert!(seen.insert((*id, *serial)), "duplicate identifier <{}.{}> handed out (start id {}, serial {})", id, serial, start_id, start_serial);
+        assert!(seen.insert((*id, *serial, *cr)), "duplicate identifier <{}.{}> handed out (start id {}, serial {})", id, serial, start_id, start_serial);
     }
     let mut rseen = HashSet::new();
     let mut words = HashSet::new();
